@@ -1,5 +1,6 @@
 /- `int_process_gate_eq` of GenInt.lean (one module per declaration, tools/lean_split.py) -/
 import Qvnt.Generated.Regs
+import Qvnt.Lemmas.GenMacroNew.macro_new_eq
 import Qvnt.Generated.Kernels
 import Qvnt.Lemmas.Bits
 import Mathlib.Tactic.Ring
@@ -18,7 +19,7 @@ variable [Add R] [Sub R] [Mul R] [Neg R] [Div R] [ExprFns R] [AngleFns R]
 theorem int_process_gate_eq (s c : Interp R) (name : String) (regs args : List String) (body : List (Inner R)) :
     int_process_gate s c name regs args body = (Interp.processNode s c (.gate name regs args body)).toE := by
   unfold int_process_gate
-  simp only [Interp.processNode]
+  simp only [Interp.processNode, macro_new_eq]
   cases Macro.new regs args body with
   | error e => rfl
   | ok m =>
